@@ -1,11 +1,28 @@
 """C05 — read-only accessors on JSONB bytes agree with the document they encode (structural clauses)."""
 import report
-from rules import walkers
+from rules import walkers, accessors
 
-EXPLANATION = "work in progress"
+EXPLANATION = (
+    "Static analysis of every loop and iterator body that reads JSONB entry words (functions.rs, iterator.rs), by path-sensitive "
+    "dataflow over loop bodies. R05.1 (W-INIT): the initial affine forms of the entry and payload cursors differ by exactly 4 × count "
+    "(array) or 8 × count (object), the kind being the header tag established on every path to the loop or at every call site; iterator "
+    "constructors are checked against the layout table. R05.2 (W-ADVANCE/W-PAIR): on every CFG path from a loop head back to it (and "
+    "for iterator `next` bodies on every path returning Some) a cursor advanced by an entry's length is advanced by the length of an entry "
+    "read on that path from the buffer that cursor indexes, the entry cursor advances by 4 per entry position, and no path moves past an "
+    "entry without consuming or keeping its length. R05.4: extract_by_jentry returns containers verbatim and scalars as scalar header ‖ "
+    "the same entry word ‖ exactly length bytes. R05.5: get_by_keypath uses idx for provably non-negative and len+idx for provably "
+    "negative indices. R05.6: the name lookup leaves its loop early only on an exact match and latches the first case-insensitive match. "
+    "R05.7: type_of's tag/first-byte tables give the documented names. R05.8: a header is read at a stepped payload offset only after the "
+    "entry was tested to be a container. NOT decided: equality with the tree answer for every accessor and argument; the casts.")
 
 
 def check(ctx, run):
-    run.rules_run = ['R05.2']
+    run.rules_run = ['R05.1', 'R05.2', 'R05.4', 'R05.5', 'R05.6', 'R05.7', 'R05.8']
+    walkers.w_init(ctx, run, 'R05.1', floor=15)
     walkers.w_advance(ctx, run, 'R05.2', floor=24)
-    return report.finish(run, level='other', explanation=EXPLANATION)
+    accessors.r05_4(ctx, run)
+    accessors.r05_5(ctx, run)
+    accessors.r05_6(ctx, run)
+    accessors.r05_7(ctx, run)
+    accessors.r05_8(ctx, run)
+    return report.finish(run, level='other', explanation=EXPLANATION, assumptions=["A1: documents are valid JSONB (the property's precondition)", "A2: no wrap of usize offsets"])
